@@ -1,0 +1,65 @@
+//go:build verif
+
+package age
+
+// Contracts for govc, the contract verifier under /verif (see /verif/DESIGN.md).
+// Compiled only with -tags verif; comment-only apart from ghost lemma functions
+// that no other code calls.
+
+//@ func slicesEqual
+//@   loop 1 invariant -1 <= rangeindex && rangeindex < len(s1) && len(s1) == len(s2) && (forall j in 0..rangeindex+1 :: s1[j] == s2[j])
+//@   loop 1 decreases len(s1) - rangeindex
+//@   ensures#iff result <==> (len(s1) == len(s2) && (forall j in 0..len(s1) :: s1[j] == s2[j]))   [C11]
+//@   modifies nothing
+
+//@ func multiUnwrap
+//@   pure unwrap
+//@   requires forall j in 0..len(stanzas) :: stanzas[j] != nil
+//@   loop 1 invariant -1 <= rangeindex && rangeindex < len(stanzas) && (forall j in 0..rangeindex+1 :: wraps(apply(unwrap, 1, stanzas[j]), ErrIncorrectIdentity))
+//@   loop 1 decreases len(stanzas) - rangeindex
+//@   ensures#nomatch (forall j in 0..len(stanzas) :: wraps(apply(unwrap, 1, stanzas[j]), ErrIncorrectIdentity)) ==> result0 == nil && result1 == ErrIncorrectIdentity   [C01 C04]
+//@   ensures#first forall k in 0..len(stanzas) :: (!wraps(apply(unwrap, 1, stanzas[k]), ErrIncorrectIdentity) && (forall j in 0..k :: wraps(apply(unwrap, 1, stanzas[j]), ErrIncorrectIdentity))) ==> ((apply(unwrap, 1, stanzas[k]) != nil ==> result0 == nil && result1 == apply(unwrap, 1, stanzas[k])) && (apply(unwrap, 1, stanzas[k]) == nil ==> same(result0, apply(unwrap, 0, stanzas[k])) && result1 == nil))   [C01 C04]
+//@   modifies nothing
+
+//@ const HKDF32 := 32
+
+//@ func streamKey(fileKey, nonce) (key)
+//@   maypanic
+//@   call hkdf.New#1 requires isfunc(arg0, "crypto/sha256.New") && bytes(arg1) == bytes(fileKey) && bytes(arg2) == bytes(nonce) && bytes(arg3) == "payload"   [C02 C05]
+//@   ensures#len len(key) == 32
+//@   ensures#val bytes(key) == sub(hkdfstream(old(bytes(fileKey)), old(bytes(nonce)), "payload"), 0, 32)       [C01 C02 C05]
+//@   fresh key
+//@   modifies nothing
+
+//@ func headerMAC(fileKey, hdr) (mac, err)
+//@   requires hdr != nil
+//@   call hkdf.New#1 requires isfunc(arg0, "crypto/sha256.New") && bytes(arg1) == bytes(fileKey) && len(arg2) == 0 && bytes(arg3) == "header"   [C03 C05]
+//@   call hmac.New#1 requires isfunc(arg0, "crypto/sha256.New")                                                                         [C03 C05]
+//@   ensures#val err == nil ==> len(mac) == 32 && bytes(mac) == hmac256(sub(hkdfstream(old(bytes(fileKey)), "", "header"), 0, 32), hdrbytes(hdr))   [C03 C05]
+//@   ensures#nil err != nil ==> mac == nil
+//@   fresh mac when err == nil
+//@   modifies nothing
+
+//@ func Decrypt(src, identities) (rd, err)
+//@   requires forall j in 0..len(identities) :: identities[j] != nil
+//@   loop 1 invariant -1 <= rangeindex && rangeindex < len(hdr.Recipients) && len(stanzas) == rangeindex+1
+//@   loop 1 invariant#copy disjoint(stanzas, hdr.Recipients) && (forall j in 0..rangeindex+1 :: stanzas[j] == hdr.Recipients[j])     [C01]
+//@   loop 1 decreases len(hdr.Recipients) - rangeindex
+//@   loop 2 invariant -1 <= rangeindex && rangeindex < len(identities)
+//@   loop 2 invariant#count $uwn == old($uwn) + rangeindex + 1 && fileKey == nil                                                      [C01 C04]
+//@   loop 2 invariant#errs len(errNoMatch.Errors) == rangeindex+1                                                                     [C04]
+//@   loop 2 invariant#frame unchanged(identities) && disjoint(errNoMatch.Errors, identities)                                           [C01 C04 C14]
+//@   loop 2 invariant#log forall j in 0..rangeindex+1 :: ($uwid[old($uwn)+j] == identities[j] && wraps($uwerr[old($uwn)+j], EII))      [C01 C04]
+//@   loop 2 invariant#errlog forall j in 0..rangeindex+1 :: errNoMatch.Errors[j] == $uwerr[old($uwn)+j]                                [C04]
+//@   loop 2 decreases len(identities) - rangeindex
+//@   call Unwrap#0 requires len(arg1) == len(hdr.Recipients) && (forall j in 0..len(arg1) :: arg1[j] == hdr.Recipients[j])             [C01]
+//@   ensures#nilxor (rd == nil) <==> (err != nil)                                                              [C03 C04 C07 C14]
+//@   ensures#order $uwn - old($uwn) <= len(identities) && (forall j in 0..$uwn-old($uwn) :: $uwid[old($uwn)+j] == identities[j])   [C01]
+//@   ensures#stopfirst forall j in 0..$uwn-old($uwn)-1 :: wraps($uwerr[old($uwn)+j], EII)                      [C01]
+//@   ensures#nomatch (len(identities) > 0 && $uwn - old($uwn) == len(identities) && (forall j in 0..len(identities) :: wraps($uwerr[old($uwn)+j], EII))) ==> rd == nil && typeis(err, "*filippo.io/age.NoIdentityMatchError") && len(cast(err, "filippo.io/age.NoIdentityMatchError").Errors) == len(identities) && (forall j in 0..len(identities) :: cast(err, "filippo.io/age.NoIdentityMatchError").Errors[j] == $uwerr[old($uwn)+j])   [C04]
+//@   ensures#keyok err == nil ==> $uwn > old($uwn) && $uwerr[$uwn-1] == nil && !isnil($uwkey[$uwn-1]) && same($uwkey[$uwn-1], fileKey)   [C01 C04]
+//@   ensures#mac err == nil ==> $eqcalls == old($eqcalls)+1 && $eqr && $eqb == bytes(hdr.MAC) && $eqa == hmac256(sub(hkdfstream(bytes(fileKey), "", "header"), 0, 32), hdrbytes(hdr))   [C03 C05]
+//@   ensures#reader err == nil ==> typeis(rd, "*filippo.io/age/internal/stream.Reader") && cast(rd, "filippo.io/age/internal/stream.Reader").src == payload && cast(rd, "filippo.io/age/internal/stream.Reader").a.$key == sub(hkdfstream(bytes(fileKey), bytes(nonce), "payload"), 0, 32)   [C01 C02 C05]
+//@   call io.ReadFull#1 requires arg0 == payload && same(arg1, nonce) && len(nonce) == 16       [C02 C05]
+//@   call hmac.Equal#1 requires same(arg0, mac) && same(arg1, hdr.MAC)                          [C03]
+//@   call streamKey#1 requires same(arg0, fileKey) && same(arg1, nonce)                         [C02 C05]
